@@ -591,9 +591,13 @@ def check_dict_roundtrip(rec, m, spec, t, d, combos, tag=''):
                       f'x = D.from_dict(dict({call}), spec{kw})\n')
 
 
-def check_lookups(rec, m, spec, t, d, rs):
-  key = (src(m), t)
-  base = f'd = {bind_src(t)}\n'
+def check_lookups(rec, m, spec, t, d, rs, base=None, tag='lookup',
+                  key_extra=None, spec_side=True):
+  """base: witness text that builds `d` (default: a fresh bound DNA of t);
+  tag: prefix of the case ids; spec_side: also check the id side of the spec."""
+  key = (src(m), t) if key_extra is None else (src(m), t, key_extra)
+  if base is None:
+    base = f'd = {bind_src(t)}\n'
   clash = name_clash(rs)
 
   def want_of(r_):
@@ -626,10 +630,10 @@ def check_lookups(rec, m, spec, t, d, rs):
           '' if r_.active else '-inactive')
       if pname == 'name' and not r_.active:
         cls = 'inactive'
-      rec.case(f'lookup/{pname}/{cls}', (key, path_to(r_)), ok, msg, wit(
+      rec.case(f'{tag}/{pname}/{cls}', (key, path_to(r_)), ok, msg, wit(
           m, base + f'got = {text}\nassert got == {wsrc}, got'))
     # spec side: the id resolves to this very decision point
-    if r_.parent is None:
+    if r_.parent is None and spec_side:
       try:
         ok = spec[r_.dp.id.path] is r_.dp and spec.get(r_.dp.id) is r_.dp
       except Exception:  # pylint: disable=broad-except
@@ -667,11 +671,13 @@ def check_lookups(rec, m, spec, t, d, rs):
         msg = f'{text} = {got!r}, want {want!r}'
       except Exception as e:  # pylint: disable=broad-except
         ok, msg = False, f'{text} raised {type(e).__name__}: {e}'[:300]
-      rec.case((f'lookup/{pname}/multi-choice-parent' + (
+      rec.case((f'{tag}/{pname}/multi-choice-parent' + (
           '' if want is not None else '-inactive'))
                if not (pname == 'name' and want is None) else
-               'lookup/name/inactive', (key, pid), ok, msg,
+               f'{tag}/name/inactive', (key, pid), ok, msg,
                wit(m, base + f'got = {text}\nassert got == {wsrc}, got'))
+  if not spec_side:
+    return
   # id = path of locations with conditional keys '[=index/num_candidates]'
   for r_ in rs:
     rec.case('lookup/id-format/' + ('subchoice' if r_.parent is not None
@@ -1701,6 +1707,235 @@ def drv_binding_history(tier, seed):
   return rec.result()
 
 # ---------------------------------------------------------------------------
+# Lookups on a DNA with a history: look up, edit in place, look up again
+# ---------------------------------------------------------------------------
+# The statement promises that a lookup returns the decision *actually made
+# there*: not the decision that was there when somebody looked first.  The
+# input class here is the history of one DNA object: lookups of every kind (by
+# decision point, id, name; at the root and at inner nodes), then an edit in
+# place that keeps every node bound to the decision point of its position (the
+# way the evolution mutators edit their clones: a node bound to the position's
+# decision point put in by index; a value rewritten; the children rewritten by
+# bound nodes; pure metadata writes), then every lookup again, then a second
+# edit of another style.  The expectation is computed from the raw numbers.
+
+EDIT_STYLES = ('replace/root-path', 'replace/parent-list-index',
+               'replace/parent-node-path', 'replace/list-setitem',
+               'value=', 'children=', 'metadata-only')
+WARMUPS = ('cold', 'decision-point', 'id', 'name', 'all', 'all+inner-nodes')
+
+
+def _warm(d, mode, p):
+  """Looks decisions up before the edit; returns the source text."""
+  if mode == 'cold':
+    return ''
+  txt = ''
+  if mode in ('decision-point', 'all', 'all+inner-nodes'):
+    for dp in d.spec.decision_points:
+      d[dp]                              # pylint: disable=pointless-statement
+    txt += '[d[dp] for dp in spec.decision_points]\n'
+  if mode in ('id', 'all', 'all+inner-nodes'):
+    for dp in d.spec.decision_points:
+      d.get(dp.id.path)
+    txt += '[d.get(dp.id.path) for dp in spec.decision_points]\n'
+  if mode in ('name', 'all', 'all+inner-nodes'):
+    d.named_decisions                    # pylint: disable=pointless-statement
+    txt += 'd.named_decisions\n'
+  if mode == 'all+inner-nodes':
+    for k in range(1, len(p) + 1):
+      nd = _node_at(d, p[:k])
+      nd.named_decisions                 # pylint: disable=pointless-statement
+      nd.get('no such id', None)
+      ns = _node_src(p[:k]).replace('x', 'd', 1)
+      txt += f'{ns}.named_decisions; {ns}.get("no such id", None)\n'
+  return txt
+
+
+def aligned_edit(d, cur, want, style):
+  """Edits the aligned pg.DNA d (tree `cur`) in place into `want`, keeping
+  every node bound to the decision point of its position.  Returns the source
+  text of the edit (on variable d) or None if the style does not apply."""
+  if style == 'metadata-only':
+    d.set_metadata('note', 1)
+    d.rebind({'metadata.tag': 'v'})
+    return "d.set_metadata('note', 1); d.rebind({'metadata.tag': 'v'})\n"
+  p = diff_path(cur, want)
+  if p is None:
+    return None
+  a, b = _get_tree(cur, p), _get_tree(want, p)
+  nd = _node_at(d, p)
+  nsrc = _node_src(p).replace('x', 'd', 1)
+  if style.startswith('replace/'):
+    if not p or nd.spec is None:
+      return None
+    n = mk(b)
+    n.use_spec(nd.spec)
+    head = f'n = {dsrc(b)}; n.use_spec({nsrc}.spec)\n'
+    par = _node_at(d, p[:-1])
+    psrc = _node_src(p[:-1]).replace('x', 'd', 1)
+    if style == 'replace/root-path':
+      key = '.'.join(f'children[{i}]' for i in p)
+      d.rebind({key: n})
+      return head + f'd.rebind({{{key!r}: n}})\n'
+    if style == 'replace/parent-list-index':
+      par.children.rebind({p[-1]: n})
+      return head + f'{psrc}.children.rebind({{{p[-1]}: n}})\n'
+    if style == 'replace/parent-node-path':
+      par.rebind({f'children[{p[-1]}]': n})
+      return head + f"{psrc}.rebind({{'children[{p[-1]}]': n}})\n"
+    if style == 'replace/list-setitem':
+      with pg.allow_writable_accessors(True):
+        par.children[p[-1]] = n
+      return head + ('with pg.allow_writable_accessors(True):\n'
+                     f'  {psrc}.children[{p[-1]}] = n\n')
+  if style == 'value=':
+    # only childless nodes: below a rewritten value the children would answer
+    # the decision points of another candidate
+    if a[1] or b[1]:
+      return None
+    nd.rebind(value=b[0])
+    return f'{nsrc}.rebind(value={b[0]!r})\n'
+  if style == 'children=':
+    if tkey((a[0], ())) != tkey((b[0], ())) or len(a[1]) != len(b[1]):
+      return None
+    olds = list(nd.children)
+    if any(o.spec is None for o in olds):
+      return None
+    new = [mk(c).use_spec(o.spec) for c, o in zip(b[1], olds)]
+    nd.rebind(children=new)
+    return (f'old = list({nsrc}.children)\n'
+            f'{nsrc}.rebind(children=[c.use_spec(o.spec) for c, o in zip(['
+            + ', '.join(dsrc(c) for c in b[1]) + '], old)])\n')
+  raise ValueError(style)
+
+
+def edit_history_specs():
+  a = alignment_specs()
+  return history_specs() + [n for n in named_specs()
+                            if n not in history_specs()][:6] + a[1:3]
+
+
+def drv_edit_history(tier, seed):
+  rec = Recorder(
+      PROP, 'lookups return the decision actually made there after the DNA '
+      'was looked up and then edited in place',
+      scope=('specs of drv_binding_history + named specs (several root '
+             'elements, conditional, multi-choices, nested multi-choices, '
+             'floats, custom, repeated names) x members (quick 2, thorough 6) '
+             'x targets (2 other members) x edit style (node bound to the '
+             "position's decision point put in by index through the root "
+             'path / the parent list / the parent node / list item '
+             'assignment; rebind(value=); rebind(children=bound nodes); '
+             'metadata writes only) x lookups before the edit (none, by '
+             'decision point, by id, by name, all, all + at every inner node '
+             'above the edit; quick: 2 of the 6 per case in rotation, always '
+             'one of the last two) x a second edit of the next style.  After '
+             'each edit: node.spec identity per position, to_dict vs '
+             'expectation from the raw numbers, d[dp], d[id], d[KeyPath], '
+             'd.get(id), d[name], multi-choice parents, lookups of the '
+             'decisions below every inner node above the edit'))
+  r = rng(seed, 'c12.edit-history')
+  t0 = time.process_time()
+  budget = 14 if tier == 'quick' else 300
+  n_mem = 2 if tier == 'quick' else 6
+  count = 0
+
+  def inner_lookups(m, spec, x, t, p, rs, style, base, key):
+    """Decisions below an inner node, looked up at that node."""
+    for k in range(1, len(p)):
+      anc = _node_at(x, p[:k])
+      inside = set()
+      stack = [anc]
+      while stack:
+        q = stack.pop()
+        inside.add(id(q))
+        stack.extend(q.children)
+      ok, msg = True, ''
+      try:
+        for r_ in rs:
+          if r_.real is None or id(r_.real) not in inside or r_.real is anc:
+            continue
+          got = norm_value(anc[r_.dp])
+          want = ('dna', tkey(r_.node))
+          if got != want:
+            ok, msg = False, (f'inner node {shape(anc)!r}: [{r_.dp.id.path!r}]'
+                              f' = {got!r}, want {want!r}')
+            break
+      except Exception as e:  # pylint: disable=broad-except
+        ok, msg = False, f'{type(e).__name__}: {e}'[:300]
+      asrc = _node_src(p[:k]).replace('x', 'd', 1)
+      rec.case(f'lookup-after-edit[{style}]/decision-point/at-inner-node',
+               (key, p[:k]), ok, msg, wit(
+                   m, base + f'y = D.from_numbers({flat(t)!r}, spec)\n'
+                   f'a, b = {asrc}, {asrc.replace("d", "y", 1)}\n'
+                   'for dp in spec.decision_points:\n'
+                   '  if b.get(dp) is not None:\n'
+                   '    assert a.get(dp) == b.get(dp), (dp.id.path, a.get(dp), b.get(dp))'))
+
+  def step(m, spec, x, cur, want, style, base, key):
+    """One edit + all checks.  Returns the new witness text or None."""
+    p = diff_path(cur, want) or ()
+    try:
+      etxt = aligned_edit(x, cur, want, style)
+    except Exception:  # pylint: disable=broad-except
+      return None                        # this edit is not possible
+    if etxt is None:
+      return None
+    goal = cur if style == 'metadata-only' else want
+    if not same(shape(x), goal):
+      return None
+    base = base + etxt
+    if not check_alignment(rec, m, spec, goal, x, f'edit[{style}]',
+                           base + 'x = d\n'):
+      return None
+    rs, _ = records(m, spec, goal, x)
+    check_lookups(rec, m, spec, goal, x, rs, base=base,
+                  tag=f'lookup-after-edit[{style}]', key_extra=key,
+                  spec_side=False)
+    inner_lookups(m, spec, x, goal, p, rs, style, base, key)
+    return base
+
+  for m in edit_history_specs():
+    if time.process_time() - t0 > budget:
+      break
+    spec = build(m)
+    mem = members(m)
+    if len(mem) < 2:
+      continue
+    for t in sample_members(m, n_mem, r):
+      others = [u for u in mem if not same(u, t)]
+      for t1 in r.sample(others, min(2, len(others))):
+        p = diff_path(t, t1) or ()
+        for si, style in enumerate(EDIT_STYLES):
+          if tier == 'quick':
+            warms = (WARMUPS[count % 4], WARMUPS[4 + count % 2])
+          else:
+            warms = WARMUPS
+          for warm in warms:
+            count += 1
+            x = mk(t).use_spec(spec)
+            base = f'd = {bind_src(t)}\n' + _warm(x, warm, p)
+            key = (t1, warm)
+            base1 = step(m, spec, x, t, t1, style, base, key)
+            if base1 is None:
+              break                      # style does not apply to this pair
+            # second edit (the lookups above have built every table again)
+            cur = t if style == 'metadata-only' else t1
+            rest = [u for u in mem if not same(u, cur)]
+            t2 = r.choice(rest)
+            base1 += ('[d[dp] for dp in spec.decision_points]; '
+                      'd.named_decisions\n')
+            for s2 in (EDIT_STYLES[(si + 1) % len(EDIT_STYLES)],
+                       EDIT_STYLES[(si + 2) % len(EDIT_STYLES)]):
+              if s2 == 'metadata-only':
+                continue
+              if step(m, spec, x, cur, t2, s2, base1,
+                      (t1, warm, 'then', t2)) is not None:
+                break
+  return rec.result()
+
+
+# ---------------------------------------------------------------------------
 # Entry points: every public way of being handed a DNA x every form of its
 # optional arguments
 # ---------------------------------------------------------------------------
@@ -2093,7 +2328,7 @@ def drv_entry_points(tier, seed):
 
 DRIVERS = [drv_numbers_and_json, drv_dict_views, drv_alignment,
            drv_literal_forms, drv_hyper_specs, drv_operator_matrix,
-           drv_binding_history, drv_entry_points]
+           drv_binding_history, drv_edit_history, drv_entry_points]
 
 
 def replay(rec):
